@@ -207,7 +207,12 @@ class Verifier:
                         # its quantified facts carry over to the caller's post-condition; nothing to re-establish
                         self.exit_index = i
                         return (r,)
-                    raise EngineError("break/continue inside a cut loop")
+                    if r[0] == "break":
+                        # the loop is left from inside iteration i: the code after the loop runs on this state (the invariant at i
+                        # was assumed, the body ran up to the break); nothing to re-establish
+                        self.exit_index = i
+                        return (None,)
+                    raise EngineError("continue inside a cut loop")
                 g2 = spec.step(ctx, i, ghost)
                 for item in spec.inv(ctx, i + 1, g2):
                     if isinstance(item, Forall):
@@ -260,7 +265,10 @@ class Verifier:
             if r is not None:
                 if r[0] == "return":
                     return (r,)
-                raise EngineError("break/continue inside a cut while loop")
+                if r[0] == "break":
+                    self.exit_ghost = ghost
+                    return (None,)
+                raise EngineError("continue inside a cut while loop")
             g2 = spec.step(ctx, i, ghost)
             i2 = spec.index(ctx)
             for item in spec.inv(ctx, i2, g2):
